@@ -77,6 +77,90 @@ def programs(res, tier, wd):
     return progs
 
 
+ALG_TRACE_CFG = ("CONSTANTS\n MaxP = %d\n MaxE = %d\n MaxCalls = 0\n DevF9 = FALSE\n DevF12 = FALSE\n WithZeroFun = FALSE\n Sim = FALSE\n"
+                 " OpSet = {}\n QSet = {}\n MaxBuild = 0\nINIT TInit\nNEXT Step\nINVARIANT Report\nCHECK_DEADLOCK FALSE\n" % (MAXV, MAXV))
+
+CLASSES = {   # every shipped class with valid parameters (for the reuse_gradient sweep)
+    "ConvexFunction": {}, "StronglyConvexFunction": dict(mu=.5), "SmoothFunction": dict(L=1.), "SmoothConvexFunction": dict(L=1.),
+    "SmoothStronglyConvexFunction": dict(mu=.25, L=1.), "ConvexLipschitzFunction": dict(M=1.),
+    "SmoothConvexLipschitzFunction": dict(L=1., M=1.), "ConvexQGFunction": dict(L=1.), "RsiEbFunction": dict(mu=.5, L=1.),
+    "ConvexIndicatorFunction": dict(D=1.), "ConvexSupportFunction": dict(M=1.),
+    "BlockSmoothConvexFunction": {}, "CocoerciveOperator": dict(beta=1.),
+    "CocoerciveStronglyMonotoneOperator": dict(mu=.5, beta=1.), "LipschitzOperator": dict(L=1.),
+    "LipschitzStronglyMonotoneOperator": dict(mu=.5, L=1.), "MonotoneOperator": {}, "NegativelyComonotoneOperator": dict(rho=1.),
+    "NonexpansiveOperator": {}, "StronglyMonotoneOperator": dict(mu=.5)}
+# (SmoothStronglyConvexQuadraticFunction and the three linear-operator classes fix reuse_gradient themselves)
+
+
+def alg_cfg(calls, build, sim=False, ops=CORE, qset="{1, 3, 4}", emit=True):
+    s = ("CONSTANTS\n MaxP = %d\n MaxE = %d\n MaxCalls = %d\n DevF9 = FALSE\n DevF12 = FALSE\n WithZeroFun = FALSE\n Sim = %s\n"
+         " OpSet = %s\n QSet = %s\n MaxBuild = %d\nINIT AInit\nNEXT ANext\nINVARIANT AInvI1\nINVARIANT AInvI2\nINVARIANT AInvI4\n"
+         "INVARIANT AInvI6\nCHECK_DEADLOCK FALSE\n" % (MAXV, MAXV, calls, str(sim).upper(), ops, qset, build))
+    return s + ("INVARIANT AEmit\n" if emit else "")
+
+
+def algebra_machine(res, tier, wd):
+    """second machine (spec/OracleAlg.tla): the functions are built by the behaviour with the DSL operators"""
+    items = []
+    r = tlc("OracleAlg", alg_cfg(2, 1), wd, coverage=True)
+    if r["violated"]:
+        raise Machinery("OracleAlg.tla violates %s" % r["violated"])
+    res.add_tlc("OracleAlg(1 built function + 1 call, exhaustive)", r)
+    for rec in split_prints(r["out"]):
+        if isinstance(rec, str):
+            h = json.loads(rec)["h"]
+            items += [dict(h=h, variant=v) for v in (0, 1)]
+    n = 3000 if tier == "quick" else 40000
+    r = tlc("OracleAlg", alg_cfg(4, 2, sim=True, ops=ALLOPS, qset="{1, 2, 3, 4, 5, 6}"), wd, workers=1, simulate="num=%d" % n,
+            extra=["-depth", "5", "-seed", str(seed() + 9)])
+    if r["violated"]:
+        raise Machinery("OracleAlg.tla (simulation) violates %s" % r["violated"])
+    res.add_tlc("OracleAlg(<= 2 built functions, 4 steps, simulate)", r)
+    seen = set()
+    for rec in split_prints(r["out"]):
+        if isinstance(rec, str) and rec not in seen:
+            seen.add(rec)
+            items.append(dict(h=json.loads(rec)["h"], variant=len(seen) % 2))
+    # every shipped class declared with an explicit reuse_gradient value, queried twice at one point
+    for cls, kw in sorted(CLASSES.items()):
+        for flag in (0, 1):
+            items.append(dict(cls=cls, kw=kw, flag=flag, variant=0,
+                              h=[dict(op="oracle", f=1, g=0, s=0, q=1), dict(op="oracle", f=1, g=0, s=0, q=1),
+                                 dict(op="value", f=1, g=0, s=0, q=1)]))
+    traces = pool_map("drv_c07b", "run", items)
+    out = []
+    B = 6000
+    for s0 in range(0, len(traces), B):
+        chunk = traces[s0:s0 + B]
+        path = os.path.join(wd, "alg_%d.ndjson" % s0)
+        write_ndjson(path, chunk)
+        r = tlc("OracleAlgTrace", ALG_TRACE_CFG, wd, env=dict(TRACE_FILE=path))
+        res.add_tlc("OracleAlgTrace", r)
+        v = core_verdicts(r["out"], len(chunk))
+        out += [(t, v[i + 1]) for i, t in enumerate(chunk)]
+        os.remove(path)
+    nontriv = set()
+    for t, clauses in out:
+        key = ("%s(reuse_gradient=%s): " % (t["cls"], bool(t["funs0"][0]["diff"])) if t["cls"] else "") + " ; ".join(
+            ("%s(f%d%s)" % (c["op"], c["f"], (",f%d" % c["g"]) if c["g"] else (",s%d" % c["s"]) if c["s"] else "")) if c["op"].startswith("f") and c["op"] != "fixed"
+            else "f%d.%s(%s)" % (c["f"], c["op"], QN[c["q"]]) for c in t["h"])
+        nontriv.add(key)
+        first = {}
+        for c in sorted(clauses):
+            step, clause, fid = c
+            if clause == "drift":
+                res.drift.append(dict(program=key, step=step))
+                continue
+            first.setdefault(clause, (step, fid))
+        for clause, (step, fid) in first.items():
+            op = t["h"][step - 1]["op"] if step >= 1 else "init"
+            sig = "C07|%s|%s|%s" % (clause, t["cls"] or "built-function", op)
+            res.violation(sig, "program [%s]: after step %d function %d violates %s" % (key, step, fid, clause),
+                          dict(kind="alg", h=t["h"], variant=t["variant"], cls=t["cls"],
+                               kw=CLASSES.get(t["cls"], {}), flag=t["funs0"][0]["diff"] if t["cls"] else 0))
+    return len(traces), len(nontriv)
+
+
 def validate(res, traces, wd):
     out = []
     B = 8000
@@ -129,13 +213,17 @@ def run(tier):
                 "cancelling / fractional weights) x {oracle, value, prox} x 5 query points (incl. equal decompositions "
                 "built as new objects and an explicit zero coefficient) + stationary_point / fixed_point: all sequences "
                 "of length 2, sampled sequences of length 4; distinct = distinct call sequences; every one is non-trivial "
-                "(at least one call on a real Function)")
+                "(at least one call on a real Function); second machine spec/OracleAlg.tla: functions BUILT by the behaviour with +, -, unary -, scalar *, / (all programs with one built function and one call, sampled longer ones) and every shipped class declared with an explicit reuse_gradient value")
     progs = programs(res, tier, wd)
     traces = pool_map("drv_c07", "run", progs)
     for t, p in zip(traces, progs):
         t["zero"] = p["zero"]
     res.traces = res.evaluations = len(traces)
     judge(res, validate(res, traces, wd))
+    n2, k2 = algebra_machine(res, tier, wd)
+    res.traces += n2
+    res.evaluations += n2
+    res.distinct_nontrivial += k2
     res.samples = [dict(calls=[cstr(c) for c in t["h"]], leaf_points_after=t["steps"][-1]["np"] if t["steps"] else 2)
                    for t in traces[:: max(1, len(traces) // 5)][:5]]
     res.assumptions = ["function values of the modelled functions are linear in leaf expressions",
@@ -149,6 +237,23 @@ def replay(path):
     rp = json.load(open(path))["replay"]
     res = Result(PID, "quick")
     wd = workdir(PID + "-replay")
+    if rp.get("kind") == "alg":
+        it = dict(h=rp["h"], variant=rp.get("variant", 0))
+        if rp.get("cls"):
+            it.update(cls=rp["cls"], kw=rp.get("kw", {}), flag=rp.get("flag", 0))
+        traces = pool_map("drv_c07b", "run", [it], procs=1)
+        res.traces = 1
+        r = tlc("OracleAlg", alg_cfg(1, 1, emit=False), wd)
+        res.add_tlc("OracleAlg", r)
+        p_ = os.path.join(wd, "r.ndjson")
+        write_ndjson(p_, traces)
+        r = tlc("OracleAlgTrace", ALG_TRACE_CFG, wd, env=dict(TRACE_FILE=p_))
+        for c in core_verdicts(r["out"], 1)[1]:
+            if c[1] != "drift":
+                res.violation("C07|%s|%s|replay" % (c[1], rp.get("cls") or "built-function"), "replayed: %s" % (c,), rp)
+        res.samples = [rp]
+        rmwork(PID + "-replay")
+        return finish(res)
     traces = pool_map("drv_c07", "run", [dict(h=rp["h"], zero=rp.get("zero", False))], procs=1)
     traces[0]["zero"] = rp.get("zero", False)
     res.traces = 1
